@@ -52,6 +52,23 @@ def runBar (cx : DCtx) (c : TokenCfg) (s : DState) (b : Bar) : BarResult :=
       | .ok (.balance bal) => bal
       | _ => none }
 
+/-- The bar with the strategy's other hooks: `b.ops` are the calls made in `before_bar` / `on_bar` (before `update()`), `after` the
+    calls made in `after_bar` (after `update()`, before the bar's account row), `notify` the calls made from `Strategy.notify`, which
+    runs after the account row and only when the bar recorded at least one action. -/
+def runBarX (cx : DCtx) (c : TokenCfg) (s : DState) (b : Bar) (after notify : List Op) : BarResult :=
+  let s1 := setStatus s b
+  let (outs, s2, upd) := runOpsO cx c s1 b.ops
+  let s3 := if upd then setStatus s2 b else s2
+  let s4 := update cx c s3
+  let (outsA, s4a, _) := runOpsO cx c s4 after
+  let (o, s5) := getMarketBalance cx c s4a
+  let fire := s5.actions.length != s.actions.length
+  let (outsN, s6, _) := if fire then runOpsO cx c s5 notify else ([], s5, false)
+  { outcomes := outs ++ outsA ++ outsN, state := s6,
+    balance := match o with
+      | .ok (.balance bal) => bal
+      | _ => none }
+
 /-- before the loop `Actuator.run` sets the first bar's status and takes the initial account status
     (which caches the market balance when the first bar is on the hourly grid) -/
 def runInit (cx : DCtx) (c : TokenCfg) (s : DState) (b : Bar) : DState :=
